@@ -685,17 +685,20 @@ class SimFS:
                 self._inside -= 1
         if rel is None or not any(c in mode for c in "wax+"):
             return _REAL["open"](file, mode, buffering, encoding, errors, newline, closefd, opener)
-        if "+" in mode or "x" in mode:
+        if "+" in mode:
             self.unmodelled.append("open:%s:%s" % (mode, rel))
             return _REAL["open"](file, mode, buffering, encoding, errors, newline, closefd, opener)
         full = os.path.join(self.root, rel)
         append = "a" in mode
+        excl = "x" in mode
         existed = os.path.lexists(full)
+        if excl and existed:
+            raise FileExistsError(_errno.EEXIST, "File exists", os.fspath(file))
         op = "create" if not existed else ("open_a" if append else "open_w")
         self.yield_point(op, rel)
         self._event(op, rel)
         flags = os.O_WRONLY | os.O_CREAT | getattr(os, "O_CLOEXEC", 0)
-        flags |= os.O_APPEND if append else os.O_TRUNC
+        flags |= os.O_APPEND if append else (os.O_EXCL if excl else os.O_TRUNC)
         self._inside += 1
         try:
             fd = _REAL["os_open"](full, flags, 0o666)
